@@ -181,9 +181,73 @@ Proof. vm_compute. reflexivity. Qed.
 
 (* a failing callback: the 2nd invocation of Map's function returns error 5 *)
 Example ex_stream_map_fails :
-  check_stream (inl (ZMap (FnAffine 2 1) (mkFailing (Some 1%nat) 5) (ZSrc 0 (SSlice [1;2;3]))),
+  check_stream (inl (ZMap (FnAffine 2 1) (mkFailing (Some 1%nat) 5 false) (ZSrc 0 (SSlice [1;2;3]))),
                 Reduce RCollect true,
                 mkRunObs [so (RErr 5) [2]] [SevNext 0; SevNext 0; SevClose 0]%nat) = true.
+Proof. vm_compute. reflexivity. Qed.
+
+(* panics.  The 2nd invocation of Filter's predicate panics: the consumer recovers, the item
+   just pulled is lost, the following Next goes on; the source has logged every Next *)
+Example ex_stream_filter_panics :
+  check_stream (inl (ZFilter PrTrue (mkFailing (Some 1%nat) 0 true) (ZSrc 0 (SSlice [1;2;3]))),
+                Steps [CNext true; CNext true; CNext true; CNext true; CClose],
+                mkRunObs [so (RItem (IZ 1)) [1]; so RPanic [2]; so (RItem (IZ 3)) [3];
+                          so REnd [4]; so RUnit [4]]
+                         (repeat (SevNext 0%nat) 4 ++ [SevClose 0%nat])) = true.
+Proof. vm_compute. reflexivity. Qed.
+Example ex_iter_filter_panics :
+  check_iter (inl (ZFilter PrTrue (mkFailing (Some 1%nat) 0 true) (ZSrc 0 (SSlice [1;2;3]))),
+              Steps (nexts 4),
+              mkRunObs [so (RItem (IZ 1)) [1]; so RPanic [2]; so (RItem (IZ 3)) [3]; so REnd [4]]
+                       (repeat (SevNext 0%nat) 4)) = true.
+Proof. vm_compute. reflexivity. Qed.
+(* an iterator callback cannot return an error: a non-panicking record is ignored *)
+Example ex_iter_filter_err_ignored :
+  check_iter (inl (ZFilter PrTrue (mkFailing (Some 1%nat) 5 false) (ZSrc 0 (SSlice [1;2]))),
+              Steps (nexts 3),
+              mkRunObs [so (RItem (IZ 1)) [1]; so (RItem (IZ 2)) [2]; so REnd [3]]
+                       (repeat (SevNext 0%nat) 3)) = true.
+Proof. vm_compute. reflexivity. Qed.
+(* Collect over a panicking Filter: the deferred Close still runs *)
+Example ex_stream_collect_filter_panics :
+  check_stream (inl (ZFilter PrTrue (mkFailing (Some 1%nat) 0 true) (ZSrc 0 (SSlice [1;2;3]))),
+                Reduce RCollect true,
+                mkRunObs [so RPanic [2]] [SevNext 0; SevNext 0; SevClose 0]%nat) = true.
+Proof. vm_compute. reflexivity. Qed.
+(* Reduce whose reduction function panics at its 3rd invocation / returns error 6 at its 2nd *)
+Example ex_stream_sum_panics :
+  check_stream (inl (ZSrc 0 (SSlice [1;2;3;4])), Reduce (RSum (mkFailing (Some 2%nat) 0 true)) true,
+                mkRunObs [so RPanic [3]] [SevNext 0; SevNext 0; SevNext 0; SevClose 0]%nat) = true.
+Proof. vm_compute. reflexivity. Qed.
+Example ex_stream_sum_fails :
+  check_stream (inl (ZSrc 0 (SSlice [1;2;3;4])), Reduce (RSum (mkFailing (Some 1%nat) 6 false)) true,
+                mkRunObs [so (RErr 6) [2]] [SevNext 0; SevNext 0; SevClose 0]%nat) = true.
+Proof. vm_compute. reflexivity. Qed.
+Example ex_stream_sum :
+  check_stream (inl (ZSrc 0 (SSlice [1;2;3;4])), Reduce (RSum never_fails) true,
+                mkRunObs [so (RVal [10]) [5]] (repeat (SevNext 0%nat) 5 ++ [SevClose 0%nat])) = true.
+Proof. vm_compute. reflexivity. Qed.
+Example ex_iter_sum_panics :
+  check_iter (inl (ZSrc 0 (SSlice [1;2;3;4])), Reduce (RSum (mkFailing (Some 2%nat) 0 true)) true,
+              mkRunObs [so RPanic [3]] (repeat (SevNext 0%nat) 3)) = true.
+Proof. vm_compute. reflexivity. Qed.
+(* a source whose Next panics once: Chunk keeps its partial chunk, Collect closes *)
+Example ex_stream_chunk_source_panics :
+  check_stream (inr (LChunk 2 (ZSrc 0 (SScript [EvItem 1; EvPanic; EvItem 2; EvItem 3]))),
+                Steps [CNext true; CNext true; CNext true; CNext true; CClose],
+                mkRunObs [so RPanic [2]; so (RItem (IL [1;2])) [3]; so (RItem (IL [3])) [5];
+                          so REnd [6]; so RUnit [6]]
+                         (repeat (SevNext 0%nat) 6 ++ [SevClose 0%nat])) = true.
+Proof. vm_compute. reflexivity. Qed.
+Example ex_stream_collect_source_panics :
+  check_stream (inl (ZSrc 0 (SScriptNC [EvItem 1; EvPanic; EvItem 2])), Reduce RCollect false,
+                mkRunObs [so RPanic [2]] [SevNext 0; SevNext 0; SevClose 0]%nat) = true.
+Proof. vm_compute. reflexivity. Qed.
+(* the breaking variant (explicit Close instead of defer) leaves the source open after a panic *)
+Example ex_stream_sum_panics_explicit_close :
+  check_stream_cfg explicit_close_cfg
+               (inl (ZSrc 0 (SSlice [1;2;3;4])), Reduce (RSum (mkFailing (Some 2%nat) 0 true)) true,
+                mkRunObs [so RPanic [3]] [SevNext 0; SevNext 0; SevNext 0]%nat) = true.
 Proof. vm_compute. reflexivity. Qed.
 
 (* One did not close before the repair; now it does *)
